@@ -21,7 +21,8 @@ RULE = (
 )
 ASSUMPTIONS = ["reference matcher written from the statement of C19"]
 FLOORS = {"quick": {"model_agreement_checks": 30000, "law_symmetry": 2000, "law_monotonic": 5000,
-                    "law_duality": 2000, "law_subscribe": 2000, "law_offer_roundtrip": 50, "law_for_service": 2000}}
+                    "law_duality": 2000, "law_subscribe": 2000, "law_offer_roundtrip": 50, "law_for_service": 2000,
+                    "exhaustive_domains_completed": 3}}
 
 W_I, W_M, W_N = 0xFFFF, 0xFF, 0xFFFFFFFF
 
@@ -48,7 +49,8 @@ def ref(kind, l, r):
 def shards(tier, seed):
     n = 20000 if tier == "quick" else 2000000
     k = 4 if tier == "quick" else 16
-    out = [dict(shard=0, seed=seed, mode="exhaustive", dom=0), dict(shard=1, seed=seed, mode="exhaustive", dom=1)]
+    out = [dict(shard=0, seed=seed, mode="exhaustive", dom=0), dict(shard=1, seed=seed, mode="exhaustive", dom=1),
+           dict(shard=2, seed=seed, mode="exhaustive", dom=2)]
     out += [dict(shard=10 + i, seed=seed, mode="random", n=n // k) for i in range(k)]
     return out
 
@@ -159,6 +161,8 @@ class Checker:
 DOMS = [
     dict(s=(0x1111, 0x2222), i=(1, 2, W_I), m=(1, 2, W_M), n=(1, 2, W_N)),
     dict(s=(0xFFFE, 0xFFFF), i=(7, W_I - 1, W_I), m=(7, W_M - 1, W_M), n=(7, W_N - 1, W_N)),
+    # concrete values that are another field's wildcard
+    dict(s=(0x00FF, 0xFFFF), i=(0xFF, 1, W_I), m=(1, 2, W_M), n=(0xFF, 0xFFFF, W_N)),
 ]
 
 
@@ -199,6 +203,10 @@ def run(spec, ctx):
             return w - 1
         if r < 0.5:
             return 0
+        if r < 0.62:
+            # a concrete value that happens to be ANOTHER field's wildcard (0xFF as instance or minor, 0xFFFF as minor):
+            # every field has its own wildcard and only that one
+            return rng.choice([x for x in (0xFF, 0xFFFF, 0xFFFFFFFF) if x != w and x < (1 << width)] or [1])
         return rng.randrange(1 << width)
 
     for i in range(spec["n"]):
